@@ -1,5 +1,11 @@
+#[cfg(not(feature = "verif"))]
 use std::net;
+#[cfg(feature = "verif")]
+use crate::verif::net;
+#[cfg(not(feature = "verif"))]
 use std::time;
+#[cfg(feature = "verif")]
+use crate::verif::time;
 
 use crate::CHANNEL_COUNT;
 use crate::EndpointConfig;
@@ -186,7 +192,10 @@ impl Client {
 
         // Send initial connection request
 
+        #[cfg(not(feature = "verif"))]
         let nonce = rand::random::<u32>();
+        #[cfg(feature = "verif")]
+        let nonce = crate::verif::rng::random_u32();
 
         let request = frame::Frame::HandshakeSynFrame(frame::HandshakeSynFrame {
             version: PROTOCOL_VERSION,
